@@ -235,20 +235,24 @@ lazy_static! {
 fn parse_hunk_header(line: &str) -> Option<ParsedHunkHeader> {
     if let Some(caps) = HUNK_HEADER_REGEX.captures(line) {
         let file_coordinates = &caps[1];
+        // A line without file coordinates, or with numbers that do not fit, is not a hunk header.
         let line_numbers_and_hunk_lengths = HUNK_HEADER_FILE_COORDINATE_REGEX
             .captures_iter(file_coordinates)
             .map(|caps| {
-                (
-                    caps[1].parse::<usize>().unwrap(),
+                Some((
+                    caps[1].parse::<usize>().ok()?,
                     caps.get(2)
                         .map(|m| m.as_str())
                         // Per the specs linked above, if the hunk length is absent then it is 1.
                         .unwrap_or("1")
                         .parse::<usize>()
-                        .unwrap(),
-                )
+                        .ok()?,
+                ))
             })
-            .collect();
+            .collect::<Option<Vec<_>>>()?;
+        if line_numbers_and_hunk_lengths.is_empty() {
+            return None;
+        }
         let code_fragment = caps[2].to_string();
         Some(ParsedHunkHeader {
             code_fragment,
